@@ -129,7 +129,19 @@ VALUE_KINDS = [
     ("complex64", lambda a: (a * (1 - 1j)).astype(np.complex64)),
     ("float32", lambda a: (-a).astype(np.float32)),
     ("float64", lambda a: a / 4.0),
+    # the same integers in other MEMORY LAYOUTS (numpy-generated inputs are always C-contiguous)
+    ("layout-F", lambda a: np.asfortranarray(a.copy())),
+    ("layout-T-view", lambda a: np.ascontiguousarray(a.T).T),
+    ("layout-strided", lambda a: _strided(a)),
+    ("layout-real-part", lambda a: (a.astype(np.float64) + 1j * (a + 2.5)).real),
 ]
+
+
+def _strided(a):
+    big = np.full([2 * d + 1 for d in a.shape], 7, dtype=a.dtype)
+    v = big[tuple(slice(1, 2 * d, 2) for d in a.shape)]
+    v[...] = a
+    return v
 
 
 def gen_resize(rng):
@@ -156,7 +168,7 @@ def gen_resize(rng):
 def gen_flip(rng):
     nd = rng.choice([1, 2, 3])
     sh = [rng.randint(1, 6) for _ in range(nd)]
-    axes = None if rng.random() < 0.25 else rng.sample(range(-nd, nd), rng.randint(1, nd))
+    axes = None if rng.random() < 0.25 else rng.sample(range(-nd, nd), rng.choice([0] + list(range(1, nd + 1)) * 2))    # incl. the empty subset
     if axes is not None:      # drop duplicates of the same axis
         seen, keep = set(), []
         for a in axes:
@@ -287,6 +299,7 @@ def corpus_cases():
         dict(op="a2b", bat=[1, 2], N=[5, 4], B=[2, 3], S=[2, 1], kind="any"),
         dict(op="b2a", bat=[2], N=[4, 3, 3], B=[2, 2, 1], S=[1, 2, 3], kind="any"),
         dict(op="circshift", sh=[5], shifts=[-7], axes=[-1]),
+        dict(op="flip", sh=[3, 2], axes=[]),                          # the empty subset of axes: nothing is reversed
         dict(op="upsample", ish=[7], f=[3], shift=[2]),
         dict(op="downsample", ish=[7, 2], f=[3, 1], shift=[2, 0]),
     ]
